@@ -14,6 +14,9 @@ streams
         whitespace variants of each other (between tokens: same tokens; inside literals / at the end of a comment:
         different tokens), in both orders, repeated sources, object reuse.  The specification is stateless
         (theorem parse_history_independent): every step must answer as that step's source alone would.
+  g-pp g-txt g-tree   every case of pp / txt / tree once more, with the generator `postproc` TRANSLATED from its source
+        (Gen/PyC2Text.lean, tools/gen/py_c2text.py) in place of the model's `postproc`               (correspondence only)
+  g-pparg  `list(postproc(x))` for arguments of every kind vs the translated definition             (correspondence only)
 """
 from __future__ import annotations
 
@@ -46,12 +49,18 @@ except Exception as _e:  # noqa: BLE001
 ID = "C10"
 DRIVER = "drv_c10"
 GEN = ["grammar"]
+GEN += ["py_c2text"]
+EXTRA_PROP_FILES = ["Props/C10Gen.lean"]
+G_STREAMS = ("pp", "txt", "tree")
 STREAMS = {
     "rt": {"relevant": True, "desc": "from_text(src).tree, Reconstructor items, re-lex and re-parse of as_text()"},
     "txt": {"relevant": False, "desc": "as_text() character for character (indentation, blank lines) vs asText"},
     "tree": {"relevant": False, "desc": "Reconstructor on arbitrary trees (mutated, hand-made) vs printTree/asText"},
     "lex": {"relevant": False, "desc": "c2profile_parser.lex(text) vs lexProfile"},
     "pp": {"relevant": False, "desc": "as_text's postproc closure + Reconstructor.reconstruct join vs postproc/joinItems"},
+    **{"g-" + s_: {"relevant": False, "desc": f"the generator postproc TRANSLATED from its source (Gen/PyC2Text.lean) in place of the model's "
+                                              f"postproc, vs the real as_text / closure, on every case of {s_}"} for s_ in ("pp", "txt", "tree")},
+    "g-pparg": {"relevant": False, "desc": "list(postproc(x)) for arguments of every kind (not a list, items that are not str) vs the translated definition"},
     "bad": {"relevant": False, "desc": "malformed sentences: accept / reject"},
     "hist": {"relevant": True, "desc": "several from_text/as_text/tree-edit steps in one process; each step vs the stateless model"},
 }
@@ -62,6 +71,9 @@ TRUSTED = [
     "lark.reconstruct.Reconstructor / tree_matcher (Earley over the children): modelled by printTree (greedy, first "
     "matching form) and by the relation ReconsTree (any form with the label, any split); compared on every case",
     "Python str / re semantics of the STRING, WS, SH_COMMENT, NEWLINE patterns (pinned to the generated pattern texts)",
+    "tools/py2leanu.py + lean/CsVerif/Model/PyU.lean, PyU_T12.lean, PyU_T15.lean (untyped translation of the generator postproc of "
+    "as_text: Props/C10Gen.lean proves the translated definition equal to the hand-written postproc; the g-* streams run it "
+    "against the real closure / as_text)",
 ]
 ASSUMPTIONS = [
     "profile text is a sequence of Unicode code points without lone surrogates",
@@ -335,7 +347,36 @@ def enc_items(items) -> str:
 # generation
 # ------------------------------------------------------------------------------------------------------
 
+PPARG_FIXED = [None, 5, True, "ab;", "{x}", "", [], [1], ["a", 5, ";"], [b"a"], ("a", ";"), {"a": 1, ";": 2}, [["a"], ";"], [None], b"ab",
+               [";", ";"], ["{", "}", ";"], ["a", "{", "b", ";", "}"], ["}", "}", "x"], [";", None], ("{", ("a",), "}"), ["\u20ac", ";", "\U0001f600", "{"]]
+
+
 def gen(tier, rng, shard, nshards):
+    """every case whose answer shows the regenerated text is also run with the postproc translated from its source"""
+    from . import pyuval_t12
+    for stream, line in gen0(tier, rng, shard, nshards):
+        yield stream, line
+        if stream in G_STREAMS:
+            yield "g-" + stream, "g" + line
+    if LOAD_ERROR is not None:
+        return
+    for i, a in enumerate(PPARG_FIXED):
+        if i % nshards == shard:
+            yield "g-pparg", "gppv " + pyuval_t12.pshow(a)
+    for _ in range((4000 if tier == "thorough" else 400) // nshards):
+        r = rng.random()
+        if r < 0.5:
+            a = [rng.choice(PP_ITEMS) if rng.random() < 0.9 else pyuval_t12.value(rng, 1) for _ in range(rng.choice([0, 1, 2, 3, 5, 8]))]
+            if rng.random() < 0.3:
+                a = tuple(a)
+        else:
+            a = pyuval_t12.value(rng)
+        if pyuval_t12._has(a, pyuval_t12._obj):
+            continue            # a Token is a str (not modelled)
+        yield "g-pparg", "gppv " + pyuval_t12.pshow(a)
+
+
+def gen0(tier, rng, shard, nshards):
     thorough = tier == "thorough"
     k = 0
     if LOAD_ERROR is not None:
@@ -902,6 +943,11 @@ def _postproc_fn():
 def impl(stream, line):
     if LOAD_ERROR is not None:
         raise LOAD_ERROR
+    if stream == "g-pparg":
+        from . import pyuval_t12
+        return "ok " + pyuval_t12.pshow(list(_postproc_fn()(pyuval_t12.pparse(line.split(" ")[1]))))
+    if stream.startswith("g-"):
+        return impl(stream[2:], line[1:])       # the same real function
     w = line.split(" ")
     if stream == "rt":
         return run_rt(unhx(w[1]))[0]
@@ -939,6 +985,10 @@ def impl(stream, line):
 
 
 def nontrivial(stream, line, out):
+    if stream == "g-pparg":
+        return not out.startswith("exc ")
+    if stream.startswith("g-"):
+        return nontrivial(stream[2:], line[1:], out)
     if stream == "rt":
         return out.startswith("ok ") and " tree n0:0 " not in out
     if stream == "txt":
@@ -986,6 +1036,8 @@ _TOKRE = re.compile(r'"(?:.|\n)*?(?<!\\)(?:\\\\)*?"|#[^\n]*|[{};]|[^\s{};"#]+', 
 
 
 def shrink(stream, line):
+    if stream.startswith("g-"):
+        return
     w = line.split(" ")
     if stream in ("rt", "txt", "bad") and len(w) == 2:
         src = unhx(w[1])
